@@ -7,7 +7,7 @@
 (* for every --start, with and without --verify.                                                           *)
 EXTENDS BlockParser, Json
 
-CONSTANTS MaxT
+CONSTANTS MaxT, VerifyCallbacks
 Kinds == <<"none", "tx", "merkle", "prev", "foreign">>
 
 \* the stored block at height h altered by kind k gets the id 100*k + h  (k = 1 is intact: id h + 100)
@@ -15,7 +15,7 @@ Id(h, k) == IF k = 1 THEN h ELSE 100 * k + h
 Facts(h, k) == [prev |-> IF Kinds[k] \in {"prev", "foreign"} THEN -7 ELSE h - 1,
                 merkleOk |-> Kinds[k] \notin {"tx", "merkle"}]
 
-Scen(T, ks, s, vf, cb) ==
+Scen(T, ks, s, e, vf, cb) ==
   [recs |-> [i \in 1..(T + 1) |-> [id |-> i - 1, h |-> i - 1, prev |-> i - 2, data |-> TRUE, valid |-> 5, failed |-> FALSE,
                                   file |-> 0, off |-> i - 1]],
    store |-> {[file |-> 0, off |-> h, id |-> Id(h, ks[h + 1])] : h \in 0..T},
@@ -23,16 +23,18 @@ Scen(T, ks, s, vf, cb) ==
    facts |-> [b \in {Id(h, ks[h + 1]) : h \in 0..T} |->
                 LET h == IF b < 100 THEN b ELSE b % 100
                     k == IF b < 100 THEN 1 ELSE b \div 100 IN Facts(h, k)],
-   genesis |-> 0, start |-> s, end |-> NONE, verify |-> vf, cb |-> cb, limit |-> NONE, kill |-> FALSE,
+   genesis |-> 0, start |-> s, end |-> e, verify |-> vf, cb |-> cb, limit |-> NONE, kill |-> FALSE,
    tip |-> T, active |-> [h \in 0..T |-> Id(h, ks[h + 1])], indexed |-> [h \in 0..T |-> h], kinds |-> ks]
 
-MCScen == UNION {{Scen(T, ks, s, vf, cb) : ks \in [1..(T + 1) -> 1..5], s \in 0..T, vf \in BOOLEAN, cb \in {"csvdump", "simplestats"}}
-                 : T \in 0..MaxT}
+\* with --end an altered block above the range must not matter
+MCAll == UNION {{Scen(T, ks, s, e, vf, cb) : ks \in [1..(T + 1) -> 1..5], s \in 0..T, e \in {NONE} \cup 1..T,
+                                            vf \in BOOLEAN, cb \in VerifyCallbacks} : T \in 0..MaxT}
+MCScen == {x \in MCAll : x.end = NONE \/ x.end > x.start}
 
 \* without --verify nothing is checked: the run succeeds whatever the blocks contain
 NoVerifyNoReject == (Done /\ ~sc.verify) => exit = 0
 
-Obs == [T |-> sc.tip, kinds |-> [i \in DOMAIN sc.kinds |-> Kinds[sc.kinds[i]]], start |-> sc.start, verify |-> sc.verify,
+Obs == [T |-> sc.tip, kinds |-> [i \in DOMAIN sc.kinds |-> Kinds[sc.kinds[i]]], start |-> sc.start, end |-> sc.end, verify |-> sc.verify,
         cb |-> sc.cb, exit |-> exit, errH |-> errH, heights |-> [i \in DOMAIN delivered |-> delivered[i][1]],
         nfinals |-> Cardinality(DOMAIN fin)]
 Emit == Done => PrintT(<<"REPLAY", ToJson(Obs)>>)
